@@ -142,23 +142,45 @@ def check(chk, repo, tier):
                                 for c in sigma])
 
     # ---- character-wise structure of the stages -----------------------------------------
-    # (a) escaping loop keeps no state besides the accumulated text
-    tfn = repo.mod("transpile").function("transpile_token")
-    loops = [n_ for n_ in ast.walk(tfn) if isinstance(n_, ast.For)
-             and isinstance(n_.iter, ast.Name)]
-    ok = False
-    for lp in loops:
-        stores = {m.id for m in ast.walk(lp) if isinstance(m, ast.Name)
-                  and isinstance(m.ctx, ast.Store)}
-        augs = {m.target.id for m in ast.walk(lp)
-                if isinstance(m, ast.AugAssign)
-                and isinstance(m.target, ast.Name)}
-        if len(augs) == 1 and stores - augs <= {lp.target.id, "after_char"}:
-            ok = True
-    chk.ob("C06.escape-loop-memoryless", "transpile_token/STRING loop", ok,
-           "the escaping loop keeps state besides the text built so far; the "
-           "class-pair argument no longer covers all strings", TF,
-           tfn.lineno, sample="only temp (+=) and after_char are written")
+    # (a) the escaping stage is a homomorphism on lexer *units* (a plain
+    # character, or a backslash with the character after it): the value
+    # pushed for u+v is the value for u followed by the value for v.  With
+    # that, identity on units and pairs extends to all strings by induction.
+    # only the units the writer produces: a plain character, an escaped
+    # backslash, an escaped back-quote (raw user-written escapes such as \0
+    # followed by a digit merge under python's literal rules and are not
+    # part of the round trip)
+    plain = [c for c in sigma if c not in "\\`"]
+    units = plain + ["\\\\", "\\`"]
+    cache = {}
+
+    def pushed(val):
+        if val not in cache:
+            try:
+                cache[val] = literal_value(gen.transpile_token(
+                    gen.token("STRING", val), 0, dict_compress=False))
+            except (GeneratorRaised, ValueError, SyntaxError) as exc:
+                cache[val] = exc
+        return cache[val]
+    n_h = 0
+    bad = None
+    for u in units:
+        for v in units:
+            for w in ([""] + units[:6] if tier == "thorough" else [""]):
+                n_h += 1
+                whole = pushed(u + v + w)
+                parts = [pushed(u), pushed(v)] + ([pushed(w)] if w else [])
+                if any(isinstance(x, Exception) for x in [whole] + parts):
+                    continue  # ill-formed output is C02's business
+                if whole != "".join(parts):
+                    bad = bad or (u, v, w, whole, "".join(parts))
+    chk.ob("C06.escape-stage-homomorphic", "transpile_token/STRING", bad is None,
+           f"the value pushed for {''.join(bad[:3])!r} is {bad[3]!r} but the "
+           f"values of its units concatenate to {bad[4]!r}: the escaping "
+           "stage keeps state across characters, so the class-pair argument "
+           "does not cover longer strings" if bad else "", TF,
+           witness=repr("".join(bad[:3])) if bad else None,
+           sample={"unit pairs": n_h})
     # (b) compression characters are disjoint from printable ASCII
     chk.ob("C06.compression-disjoint-from-ascii", "encoding.compression",
            not (set(comp) & set(_string.printable)),
@@ -192,9 +214,9 @@ def check(chk, repo, tier):
         "back-quote branch, uncompress_dict and the escaping loop are "
         "interpreted from the current sources and composed with python's "
         "literal semantics on every class string of length <= 2 (3 thorough); "
-        "because each stage is character-wise up to backslash pairs (checked "
-        "structurally), identity on classes and adjacent pairs gives identity "
-        "on all strings. Does not decide dictionary words themselves nor "
+        "the escaping stage is shown to be a homomorphism on lexer units "
+        "(plain character / backslash pair) over all unit pairs, so identity "
+        "on classes and adjacent pairs gives identity on all strings. Does not decide dictionary words themselves nor "
         "code-page characters outside the classes individually.")
     chk.assumptions += ["python evaluates the emitted literal as "
                         "ast.literal_eval does"]
